@@ -327,6 +327,7 @@ package bchutil
 
 //@ func bchutil.(*Block).TxLoc
 //@   requires b.msgBlock != nil
+//@   requires len(b.serializedBlock) != 0 ==> len(b.serializedBlock) == wire.bsize(b.msgBlock.ref, b.msgBlock.off)
 //@   modifies b.serializedBlock
 //@   assert after Bytes#1: true
 //@   assert after DeserializeTxLoc#1: true
